@@ -1,5 +1,5 @@
 SPECIFICATION Spec
 CONSTANTS NU = 2  MaxFarm = 2  MaxGauges = 1  Templates <- TplSingle  Steps = {1, 3, 5}  D = 2  FarmPools = {1}  Amts = {1, 2}  Modes = {"q", "b", "off"}  Emit = FALSE
-  WithSwap = FALSE  FeeAmts = {}  FeeBudget = 0  FeeDenoms = {}  GovBudget = 0
+  WithSwap = FALSE  FeeAmts = {}  FeeBudget = 0  FeeDenoms = {}  GovBudget = 0  NP = 2  ChildPricePools = {}  SetupFirst = FALSE  PreFarm = {}
 INVARIANTS Cumulative Custody SplitExact Finished
 CHECK_DEADLOCK FALSE
